@@ -12,6 +12,29 @@ def _apply(op, a, b):
     raise ValueError(op)
 
 
+def prelude_calls(E, N, dtype):
+    """unrelated public calls made before the operation under test (the library keeps no state between calls, so the
+    result must not depend on them): scalar / w, w / scalar, scalar - w, w * 0 and a rank-one product on the same mode sizes.
+    Symbolic runs replace the AMEn division kernel behind scalar / w by its contract (returns some core list of the operand's
+    shape; its numerics are the subject of C13), everything in front of it is the real code."""
+    import sys
+    tn, tt = E.tn, E.tt
+    w = tt.TT([tn.ones([1, n, 1], dtype=E.dt(dtype)) for n in N])
+    base = sys.modules[tt.__name__ + '._tt_base']
+    saved = base.amen_divide
+    if E.mode != 'real':
+        base.amen_divide = lambda a, b, *args, **kw: [c.clone() for c in b.cores]
+    try:
+        q = 2.0 / w
+    finally:
+        base.amen_divide = saved
+    h = w / 4.0
+    g = 3.0 - w
+    z = w * 0
+    k = tt.ones(list(N), dtype=E.dt(dtype)) * 5.0
+    return [w, q, h, g, z, k]
+
+
 @scenario
 def tt_binop(E, s):
     """x (op) y for TT tensors, with torch-style trailing-dimension / size-1 broadcasting"""
@@ -20,6 +43,8 @@ def tt_binop(E, s):
     if s.get('alias'):
         y, yc = (x, xc) if s['alias'] != 'shared_list' else (E.tt.TT(x.cores), xc)          # x (op) x: the operands alias each other (or share their core list)
     ref = _apply(s['op'], dense(E, xc), dense(E, yc))
+    if s.get('prelude'):
+        keep = prelude_calls(E, s['N1'], s['dtype'])
     z = _apply(s['op'], x, y)
     E.true('is_tt', isinstance(z, E.tt.TT))
     E.eq('value', dense(E, z.cores), ref)
